@@ -323,7 +323,7 @@ func (c *cubicSender) SetMaxDatagramSize(s protocol.ByteCount) {
 	}
 	cwndIsMinCwnd := c.congestionWindow == c.minCongestionWindow()
 	c.maxDatagramSize = s
-	if cwndIsMinCwnd {
+	if cwndIsMinCwnd || c.congestionWindow < c.minCongestionWindow() {
 		c.congestionWindow = c.minCongestionWindow()
 	}
 	c.pacer.SetMaxDatagramSize(s)
